@@ -41,7 +41,10 @@ pub fn run_property(prop: &str, tier: Tier, seed: u64, scale: f64) -> i32 {
     let mut exhaustive = None;
     let batches: Vec<BatchOut> = match prop {
         "C02" => vec![batch(&Offer { mode: OfferMode::State }, tier, seed, 60_000, 1_500_000, scale)],
-        "C01" => vec![batch(&Pair { mode: PairMode::Converge }, tier, seed, 80_000, 1_500_000, scale)],
+        "C01" => vec![
+            batch(&Pair { mode: PairMode::Converge, large: false }, tier, seed, 80_000, 1_500_000, scale),
+            batch(&Pair { mode: PairMode::Converge, large: true }, tier, seed, 600, 30_000, scale),
+        ],
         "C03" => vec![batch(&Forge, tier, seed, 60_000, 1_500_000, scale)],
         "C04" => vec![
             batch(&Swarm { big_skew: false }, tier, seed, 15_000, 300_000, scale),
@@ -83,7 +86,7 @@ pub fn run_property(prop: &str, tier: Tier, seed: u64, scale: f64) -> i32 {
             batch(&Docs { mode: DocsMode::PeersClockFault }, tier, seed, 10_000, 200_000, scale),
         ],
         "C18" => vec![batch(&Docs { mode: DocsMode::Migrate }, tier, seed, 30_000, 800_000, scale)],
-        "C08" => vec![batch(&Pair { mode: PairMode::Differential }, tier, seed, 50_000, 800_000, scale)],
+        "C08" => vec![batch(&Pair { mode: PairMode::Differential, large: false }, tier, seed, 50_000, 800_000, scale)],
         "C13" => vec![
             batch(&Offer { mode: OfferMode::Heads }, tier, seed, 60_000, 1_500_000, scale),
             batch(&Decoders { mode: PureMode::Heads }, tier, seed, 30_000, 600_000, scale),
@@ -124,8 +127,9 @@ fn replay_dispatch(prop: &str, scenario: &str, plan: Value) -> Result<(Option<cr
         (_, "docs-peers") => replay_plan(&Docs { mode: DocsMode::Peers }, plan),
         (_, "docs-peers-clockfault") => replay_plan(&Docs { mode: DocsMode::PeersClockFault }, plan),
         (_, "docs-migrate") => replay_plan(&Docs { mode: DocsMode::Migrate }, plan),
-        (_, "pair") => replay_plan(&Pair { mode: PairMode::Converge }, plan),
-        (_, "pair-diff") => replay_plan(&Pair { mode: PairMode::Differential }, plan),
+        (_, "pair") => replay_plan(&Pair { mode: PairMode::Converge, large: false }, plan),
+        (_, "pair-large") => replay_plan(&Pair { mode: PairMode::Converge, large: true }, plan),
+        (_, "pair-diff") => replay_plan(&Pair { mode: PairMode::Differential, large: false }, plan),
         _ => Err(format!("unknown scenario {scenario} for {prop}")),
     }
 }
@@ -243,7 +247,8 @@ pub fn determinism(prop: Option<&str>, seeds: u64) -> i32 {
     if all || p == "C16" { twice(&Docs { mode: DocsMode::Remove }, seeds, &mut bad); }
     if all || p == "C17" { twice(&Docs { mode: DocsMode::Peers }, seeds, &mut bad); twice(&Docs { mode: DocsMode::PeersClockFault }, seeds, &mut bad); }
     if all || p == "C18" { twice(&Docs { mode: DocsMode::Migrate }, seeds, &mut bad); }
-    if all || p == "C01" { twice(&Pair { mode: PairMode::Converge }, seeds, &mut bad); }
-    if all || p == "C08" { twice(&Pair { mode: PairMode::Differential }, seeds, &mut bad); }
+    if all || p == "C01" { twice(&Pair { mode: PairMode::Converge, large: false }, seeds, &mut bad); }
+    if all || p == "C01" { twice(&Pair { mode: PairMode::Converge, large: true }, seeds / 10, &mut bad); }
+    if all || p == "C08" { twice(&Pair { mode: PairMode::Differential, large: false }, seeds, &mut bad); }
     if bad.is_empty() { 0 } else { for b in bad { eprintln!("NONDETERMINISM: {b}"); } 2 }
 }
